@@ -12,6 +12,7 @@ from harness.framework import Outcome
 from harness.gen import SchemaGen, ValueGen
 
 ID = "C01"
+TIE_MODULES = ["StathamModel.Tie"]
 ASSUMPTIONS = [
     "regular expressions and format checkers are oracle tables computed by the running interpreter",
     "schemas are generated metaschema-valid by construction (the model's wf flag is checked per case)",
@@ -186,8 +187,17 @@ def _verdicts(schema, value):
         drv.close()
 
 
+def _decimal_multiple(x, m):
+    from decimal import Decimal
+    return Decimal(repr(x)) % Decimal(repr(m)) == 0
+
+
 def replay_finding(finding):
     w = finding["witness"]
+    if finding.get("oracle") == "decimal-multipleOf":
+        status, el = core.real_parse(w["schema"])
+        real = core.real_call(el, w["value"])
+        return (real["r"] == "ok") != _decimal_multiple(w["value"], w["schema"]["multipleOf"])
     real, spec = _verdicts(w["schema"], w["value"])
     if real is None or real["r"] not in ("ok", "reject"):
         return real is not None
